@@ -112,6 +112,15 @@ type VKey struct {
 	Label   string
 }
 
+// two relationship hops away from Vault (nested joins read the clauses of a schema
+// that is neither the model's own nor directly related to it)
+type VRing struct {
+	ID    uint
+	KeyID uint
+	Key   *VKey `gorm:"foreignKey:KeyID"`
+	Size  int
+}
+
 // ---- operations (each on its own rows)
 
 type c07Case struct {
@@ -121,6 +130,9 @@ type c07Case struct {
 
 func c07Rows(text string) RowSet {
 	switch {
+	case hasPrefix(text, "SELECT `vrings`"):
+		return RowSet{Cols: []string{"id", "keyid", "size", "Key__id", "Key__vaultid", "Key__label", "Key__Vault__id", "Key__Vault__name", "Key__Vault__gate"},
+			Rows: [][]driver.Value{{int64(6), int64(4), int64(1), int64(4), int64(9), "k", int64(9), "v", int64(0)}}}
 	case hasPrefix(text, "SELECT `vkeys`"):
 		return RowSet{Cols: []string{"id", "vaultid", "label", "Vault__id", "Vault__name", "Vault__gate"},
 			Rows: [][]driver.Value{{int64(4), int64(9), "k", int64(9), "v", int64(0)}}}
@@ -217,6 +229,11 @@ func c07Cases() []c07Case {
 			n := db.Model(&o).Association("Pets").Count()
 			return []interface{}{len(pets), n, err}
 		}},
+		{"join-ring-key-vault", func(db *gorm.DB) interface{} {
+			var rs []VRing
+			err := db.Joins("Key.Vault").Find(&rs).Error
+			return []interface{}{rs, err}
+		}},
 	}
 }
 
@@ -234,7 +251,8 @@ func c07Pairs(tier int) [][2]int {
 	}
 	// related models first-hand and through relations, same model twice, unrelated models
 	return [][2]int{{0, 0}, {0, 1}, {1, 0}, {0, 2}, {2, 0}, {1, 1}, {1, 2}, {0, 3}, {3, 1}, {4, 0}, {4, 1}, {4, 3}, {5, 1}, {5, 0},
-		{6, 6}, {6, 7}, {7, 6}, {8, 7}, {7, 7}, {9, 10}, {10, 9}, {9, 11}, {11, 10}, {10, 10}, {9, 13}, {13, 10}, {12, 12}, {12, 0}, {6, 0}, {9, 1}}
+		{6, 6}, {6, 7}, {7, 6}, {8, 7}, {7, 7}, {9, 10}, {10, 9}, {9, 11}, {11, 10}, {10, 10}, {9, 13}, {13, 10}, {12, 12}, {12, 0}, {6, 0}, {9, 1},
+		{0, 14}, {14, 0}, {14, 1}, {4, 14}}
 }
 
 // thorough-only shapes (all ordered pairs) are numbered after the quick ones
